@@ -188,7 +188,7 @@ def run_check(prop, tier, seed):
             except Exception:
                 nsplit = 1
         for j in range(nsplit):
-            tasks.append(('verify', c.name, timeout_ms, None, tuple(extra), (j, nsplit) if nsplit > 1 else None))
+            tasks.append(('verify', c.name, max(timeout_ms, c.defs.get('timeout_ms', 0)), None, tuple(extra), (j, nsplit) if nsplit > 1 else None))
     run_canaries = True
     if run_canaries:
         for c in cs:
